@@ -1,7 +1,7 @@
 CONSTANTS
   VNeg = 2
   VMax = 3
-  MaxLen = 6
+  MaxLen = 5
   AllowKF = TRUE
   Classes = {"BoolHigh", "BoolLow", "Floor", "Ceil", "WhenOutsideBand", "OutBand", "WhenChanged"}
 SPECIFICATION Spec
